@@ -78,7 +78,10 @@ def gen_cases(tier, rng):
     quick = tier == "quick"
     cases = [("negotiate", ("exact", "ok " + NEG.hex()))]
     F = nlmp.CLIENT_FLAGS
-    FLAGS = [F, F | nlmp.NEG_VERSION, F & ~nlmp.NEG_UNICODE, (F | nlmp.NEG_VERSION) & ~nlmp.NEG_UNICODE]
+    NEG_OEM = 0x00000002
+    # with and without VERSION and UNICODE, and each of them with the OEM bit as well (MS-NLMP 2.2.2.5: UNICODE wins when both are set)
+    FLAGS = [F, F | nlmp.NEG_VERSION, F & ~nlmp.NEG_UNICODE, (F | nlmp.NEG_VERSION) & ~nlmp.NEG_UNICODE,
+             F | NEG_OEM, F | nlmp.NEG_VERSION | NEG_OEM, (F & ~nlmp.NEG_UNICODE) | NEG_OEM]
     names = list(CLASSES)
     # ---- primitives
     for cl in names:
